@@ -329,6 +329,16 @@ func runCheck(repo, verifDir, prop, tier string) int {
 			}
 		}
 		te := vc.newTEnv(vc.entry.clone(), vc.entry, pkg)
+		// a lemma is proved from the axioms of the specification vocabulary
+		for _, ax := range e.specs.axioms {
+			if ax.inSlice(cr.slice) {
+				if f := te.formula(ax.E); strings.Contains(f, "(forall ") {
+					vc.global(f)
+				} else {
+					vc.assume("true", f)
+				}
+			}
+		}
 		vc.oblige("lemma", "lemma:"+lm.Name, lm.Src, "lemma "+lm.Text, "true", te.goalFormula(lm.E), lm.Tags)
 		vc.discharge(SolveOpts{Dir: qdir, Timeouts: timeouts, Parallel: 16, Seed: seed, Second: tier == "thorough"}, cr.tally)
 		cr.vcs = append(cr.vcs, vc)
